@@ -258,14 +258,17 @@ def t_leg(ctx, quick, focus="C09"):
     """T: M |= S for the enumerated documents; Dev regressions; returns exported behaviours"""
     recs = []
     mi = 3 if quick else 4
-    r = tlc.run("Anchors", tlc.cfg(ctx, "an_mc.cfg", consts(mi, [0, 1, 2, 7]), invariants=INVS + ["Emit"],
-                                   properties=["Terminates"], constraints=["NoDupTargets"]),
-                wd=ctx.wd, timeout=3000, defs=defs(voc=vocab(focus)))
-    tlc.expect_holds(r, "Anchors M |= S")
-    ctx.add_tlc("Anchors_mc", r, f"documents <= {mi} items over {len(vocab(focus))} items x depths 0,1,2,7 x {len(LINKS)} links")
-    for rec in r.records:
-        rec["slug_func"] = "default"
-    recs += r.records
+    # (thorough: four items over the vocabulary without the footnote items, three items over the whole vocabulary)
+    runs = [("an_mc", mi, vocab(focus))] if quick else [("an_mc", mi, [v for v in vocab(focus) if v[0] != "f"]), ("an_mc_f", 3, vocab(focus))]
+    for cname, mi_, voc_ in runs:
+        r = tlc.run("Anchors", tlc.cfg(ctx, f"{cname}.cfg", consts(mi_, [0, 1, 2, 7]), invariants=INVS + ["Emit"],
+                                       properties=["Terminates"], constraints=["NoDupTargets"]),
+                    wd=ctx.wd, timeout=3000, defs=defs(voc=voc_))
+        tlc.expect_holds(r, "Anchors M |= S")
+        ctx.add_tlc("Anchors_mc" if cname == "an_mc" else "Anchors_mc_footnotes", r, f"documents <= {mi_} items over {len(voc_)} items x depths 0,1,2,7 x {len(LINKS)} links")
+        for rec in r.records:
+            rec["slug_func"] = "default"
+        recs += r.records
     voc2 = [["h", s2c("a"), 1], ["h", s2c("a-1"), 1], ["h", s2c("a-1-1"), 1], ["h", s2c("a-2"), 2]]
     if focus == "C09":
         # (links into a slug history with numbered titles: three items over a, a-1, a-1-1, a-2)
